@@ -590,6 +590,35 @@ def run(chk, replay=None):
                        "distinct_report_sites": sorted("%s %s x%d" % (k[0], "|".join(k[1]), n) for k, n in distinct.items())[:80],
                        "reports": sorted("%s::%s" % (k[-2], k[-1]) if k[0] != "?" else k[1] for k in reports)}
 
+    # Forced scenarios: the schedule is forced, so the way they end IS the deterministic witness of the recorded key whose
+    # statement they park on - independent of which TSan reports made it to stderr before the process died.
+    FORCED_KEYS = {
+        "f_lost_update_forceClose": "TcpConnection::state_@forceClose/setState:W|",
+        "f_lost_update_forceCloseWithDelay": "TcpConnection::state_@forceCloseWithDelay/setState:W|",
+        "f_lost_update_shutdown": "TcpConnection::state_@shutdown/setState:W|",
+        "f_send_rawthis": "TcpConnection::sendInLoop@send:rawthis",
+        "f_shutdown_rawthis": "TcpConnection::shutdownInLoop@shutdown:rawthis",
+        "f_startRead_rawthis": "TcpConnection::startReadInLoop@startRead:rawthis",
+        "f_stopRead_rawthis": "TcpConnection::stopReadInLoop@stopRead:rawthis",
+        "f_client_ctor_callback_rawthis": "TcpClient::newConnection@TcpClient:rawthis-callback",
+        "f_client_closecb_rawthis": "TcpClient::removeConnection@newConnection:rawthis-callback",
+        "f_server_closecb_rawthis": "TcpServer::removeConnection@newConnection:rawthis-callback",
+    }
+    LOST_UPDATE_ASSERT = r"Assertion `(n == 1|state_ == kConnected \|\| state_ == kDisconnecting|state_ == kDisconnected)' failed"
+
+    def explain_forced(name, rc, tail):
+        pre = FORCED_KEYS.get(name)
+        if not pre or rc == 124:                    # a hang is never the expected end
+            return None
+        keys = [k for k in known if k.startswith(pre)]
+        if not keys:
+            return None
+        if name.startswith("f_lost_update_"):
+            # the lost update ends in exactly these assertions (second close / dead connection left in kDisconnecting)
+            return keys[0] if re.search(LOST_UPDATE_ASSERT, tail) else None
+        # a functor / callback running on a destroyed object: any crash (SEGV, assertion) is the use continuing
+        return keys[0] if re.search(r"Assertion|SEGV|DEADLYSIGNAL|ABORTING|AddressSanitizer|terminate called", tail) or rc in (-6, -11, 134, 139, 66) else None
+
     def explain_abort(name, tail):
         """A scenario that died in the double-close assertions is the functional consequence of the recorded race on
         TcpConnection::state_: the foreign thread's check-then-store `if (state_ == kConnected) setState(kDisconnecting)`
@@ -615,7 +644,7 @@ def run(chk, replay=None):
 
     unexplained = []
     for (name, rc, tail) in scen_fail:
-        k = explain_abort(name, tail)
+        k = explain_forced(name, rc, tail) or explain_abort(name, tail)
         if not k and any(cf[0] == "~" for (cf, ms) in scen_members.get(name, [])):
             continue            # crash after a use-after-free of an unrecorded raw-this / borrow violation: reported below with it
         if k:
